@@ -476,6 +476,11 @@ let judge_sched (which : string) g (obs : string) (pre : srv) (eui : n) : string
     let snapshots_overlap =
       List.exists (fun (x, y) -> first_pos x "GetDevice" < last_pos y "NextFCntDn" && first_pos y "GetDevice" < last_pos x "NextFCntDn")
         [("0", "1")] in
+    (* a join handled while a frame of the previous session is still being worked on: the new session starts with both
+       counters at zero, whatever the old session's straggler does *)
+    let rejoined = kind = "rejoin" && accepts <> [] && dv.x_nwk <> hex_of_bytes pre_row.d_nwkskey in
+    if rejoined && (which = "C03" || which = "C05") && dv.x_fup <> 0 then "bad:sched-new-session-uplink-counter-moved-by-old-session-frame" else
+    if rejoined && (which = "C07" || which = "C05") && dv.x_fdn <> 0 then "bad:sched-new-session-downlink-counter-moved-by-old-session-frame" else
     (match which with
      | "C03" ->
        if kind = "copies" && List.length dv.x_inbox > 1 then
@@ -489,7 +494,7 @@ let judge_sched (which : string) g (obs : string) (pre : srv) (eui : n) : string
            | _ -> "ok")
      | "C07" ->
        if dup fcnts then (if snapshots_overlap then "bad:sched-downlink-counter-reused" else "bad:sched-downlink-counter-reused-without-overlap")
-       else if List.length fcnts > 0 && dv.x_fdn <> (int_of_n pre_row.d_fdn + List.length fcnts) land 0xffff then
+       else if not rejoined && List.length fcnts > 0 && dv.x_fdn <> (int_of_n pre_row.d_fdn + List.length fcnts) land 0xffff then
          (if snapshots_overlap then "bad:sched-stored-downlink-counter-put-back" else "bad:sched-downlink-counter-not-advanced-per-frame")
        else "ok"
      | "C09" ->
